@@ -174,10 +174,13 @@ class VersionConverter(object):
 
         tree = self._replace_same_name_entities(tree)
         root = tree.getroot()
+        # The single value element of a file that already is of the current
+        # version holds the formatted value list; it must be kept as it is.
+        is_current = root.get("version") == FORMAT_VERSION
         root.set("version", FORMAT_VERSION)
 
         # Handle Values, exclude unsupported Property attributes and unnamed Properties.
-        self._handle_properties(root)
+        self._handle_properties(root, keep_value_text=is_current)
 
         # Exclude unsupported Section attributes, ignore comments, handle repositories.
         for sec in root.iter("section"):
@@ -271,12 +274,14 @@ class VersionConverter(object):
         # Print a warning, if no v1.1 compatible repository url can be provided.
         self._log("[Warning] Repository file '%s' is not odML v1.1 compatible." % content)
 
-    def _handle_properties(self, root):
+    def _handle_properties(self, root, keep_value_text=False):
         """
         Removes all property elements without name attribute, converts Value
         elements from v1.0 to v1.1 style and removes unsupported Property elements.
 
         :param root: lxml.ElementTree containing a v1.0 odML property list.
+        :param keep_value_text: if True, the text of a single value element is
+                                not formatted again; used for v1.1 documents.
         """
         for prop in root.iter("property"):
             main_val = ET.Element("value")
@@ -313,7 +318,10 @@ class VersionConverter(object):
             # v1.1 XML writer's value format, which quotes values that contain
             # commas, quotes, line breaks or enclosing brackets.
             if value_texts:
-                main_val.text = to_csv(value_texts)
+                if keep_value_text and len(value_texts) == 1:
+                    main_val.text = value_texts[0]
+                else:
+                    main_val.text = to_csv(value_texts)
                 prop.append(main_val)
 
             # Reverse map "dependency_value", exclude unsupported Property attributes.
